@@ -292,3 +292,16 @@ PLAN["C18"] = {
     "runs": runs([dict(MON16, budget=200, scale=2.0), {"flavour": "miri", "shards": 8, "budget": 300, "timeout": 1200}],
                  [dict(MON16, budget=1200), {"flavour": "asan", "shards": 16, "scale": 0.2, "budget": 600}, {"flavour": "miri", "shards": 16, "budget": 900, "timeout": 3000}]),
 }
+
+PLAN["C08"] = {
+    "rule": "histories (length 1..12) over well-posed planted problems with all cone kinds, equilibration on/off, qdldl/faer: update_P/q/A/b in every argument form (whole vector, matrix with "
+            "identical pattern, unsorted (index,value) tuples with repeats across columns, empty, wrong length, out-of-range index, pattern mismatch), update_data, and solves; a slice with the "
+            "presolver active (everything rejected). Sequential model = four plain arrays; after every call: Ok/Err and error kind as predicted, rejected whole forms and empty forms leave "
+            "solver.data bitwise untouched, internal data = c*D*P*D, c*D*q, E*A*D, E*b of the model with the stored equilibration (64 ulp), KKT copy and engine copy in sync with it (bitwise, "
+            "through the snapshot hook); at every solve: the live result passes the C01 oracle and the reported figures agree with recomputation AGAINST THE MODEL DATA, and a freshly built "
+            "solver on the model data gives the same verdict class and objective; non-trivial = distinct history",
+    "assumptions": SOLVE_ASSUME + ["P updates are restricted to PSD-preserving ones (positive-diagonal congruence, raised diagonal entries)"],
+    "min_nontrivial": 100,
+    "runs": runs([dict(MON16, budget=200, scale=2.0)],
+                 [dict(MON16, budget=1200), {"flavour": "asan", "shards": 16, "scale": 0.15, "budget": 600}, {"flavour": "miri", "shards": 16, "budget": 900, "timeout": 3000}]),
+}
